@@ -24,6 +24,33 @@ let op_sch_unc a =
 
 let op_sch_run _ = ()
 
+(* ---- ProcessCheckResult under the virtual clock: post-state from the C01 model (Ck), next check from
+   sch_next_units_after with the interval of the POST-state ---- *)
+let sch_sstate_of_int = function 0 -> SOK | 1 -> SWarning | 2 -> SCritical | _ -> SUnknown
+let pcr_cfg = ref { c_kind = KHost; c_max = z_of_int 3; c_volatile = false }
+let pcr_st = ref pending
+let pcr_ci4 = ref 20 and pcr_ri4 = ref 4 and pcr_off = ref 0
+let pcr_new a =
+  pcr_cfg := { c_kind = (if str a "kind" "host" = "svc" then KService else KHost);
+               c_max = z_of_int (num a "max" 3); c_volatile = false };
+  pcr_st := pending;
+  pcr_ci4 := num a "ci4" 20; pcr_ri4 := num a "ri4" 4; pcr_off := num a "off" 0
+let pcr_step a =
+  let now = num a "now" 2000000000 in
+  let r = { r_state = sch_sstate_of_int (num a "state" 0); r_start = z_of_int now; r_end = z_of_int now } in
+  let (post, io) = step !pcr_cfg (z_of_int now) !pcr_st r in
+  pcr_st := post;
+  let ty = int_of_z (stype_num post.s_type) in
+  let units =
+    if num a "active" 1 <> 0 then
+      int_of_z (sch_next_units_after (q_of_frac now 1) (ty = 0) (q_of_frac !pcr_ci4 4) (q_of_frac !pcr_ri4 4) (z_of_int !pcr_off))
+    else !pcr_ci4 * 2500 in
+  ((match io with None -> 3 | Some _ -> 0), ty, units)
+let op_sch_cnew a = pcr_new a
+let op_sch_cr a =
+  let (res, ty, units) = pcr_step a in
+  emit (Printf.sprintf "pcr res=%d ty=%d next=%d" res ty units)
+
 let ids_of s = if s = "-" || s = "" then [] else List.map int_of_string (String.split_on_char ',' s)
 let quiet_of s =
   if s = "-" || s = "" then [] else
@@ -139,6 +166,8 @@ let oracle_c04 script trace =
   | b :: _ -> Some ("crash " ^ b)
   | [] ->
     let uncs = List.filter (fun l -> String.length l > 4 && String.sub l 0 4 = "unc ") trace in
+    let pcrs = ref (List.filter (fun l -> String.length l > 4 && String.sub l 0 4 = "pcr ") trace) in
+    let ci4 = ref 20 and ri4 = ref 4 in
     let tr = ref uncs and err = ref None in
     let fail m = if !err = None then err := Some m in
     List.iter (fun line ->
@@ -155,6 +184,22 @@ let oracle_c04 script trace =
               if not (v > 0) then fail (Printf.sprintf "next-check not-in-future (%s) -> %d" line v)
               else if not (v <= i_units) then fail (Printf.sprintf "next-check beyond-interval (%s) -> %d > %d" line v i_units)
             | None -> fail "crash malformed-unc"))
+      | Some ("sch_cnew", a) -> ci4 := num a "ci4" 20; ri4 := num a "ri4" 4
+      | Some ("sch_cr", a) ->
+        (match !pcrs with
+         | [] -> fail "crash missing-pcr-observation"
+         | l :: rest ->
+           pcrs := rest;
+           let t = toks_of l in
+           (match tok_val t "next", tok_val t "ty", tok_val t "res" with
+            | Some v, Some ty, Some "0" when num a "active" 1 <> 0 ->
+              (* the bound of C04_next_check_after_result with the interval of the state the IMPLEMENTATION reports after the result *)
+              let v = int_of_string v and i_units = (if ty = "0" then !ri4 else !ci4) * 2500 in
+              if not (v > 0) then fail (Printf.sprintf "next-check not-in-future after-result (%s) -> %d" line v)
+              else if not (v <= i_units) then
+                fail (Printf.sprintf "next-check beyond-interval after-result post-state-type=%s (%s) -> %d > %d" ty line v i_units)
+            | Some _, Some _, Some _ -> ()
+            | _ -> fail "crash malformed-pcr"))
       | Some ("sch_run", a) ->
         (match oracle_run a trace with Some m -> fail m | None -> ())
       | _ -> ()) script;
@@ -163,4 +208,6 @@ let oracle_c04 script trace =
 let () =
   register_op "sch_unc" op_sch_unc;
   register_op "sch_run" op_sch_run;
+  register_op "sch_cnew" op_sch_cnew;
+  register_op "sch_cr" op_sch_cr;
   register_oracle "C04" oracle_c04
